@@ -273,7 +273,9 @@ def run(ctx, explain=False):
         print(res.stdout[i:i + 1500])
     rs = recipes_for(ctx)
     traces = pool_map(drive, rs, chunksize=1)
-    ctx.validate(TRACE, traces, timeout=1500, batch=600)
+    out = ctx.validate(TRACE, traces, timeout=1500, batch=600)
+    ctx.notes["spec_drift"] = "%d accepted make_invariants traces with l_max > 23: P part computed for degree 22, not 23" % (
+        sum(1 for v in out.values() if "drift=" in v))
     nrot = sum(r.get("nrot", 0) for r in rs if r["what"] == "N")
     ctx.exhaustive = False
     ctx.rule = ("l_max 1..12 x {generic complex, Hermitian (real function)} x %d seeded Gaussian-integer vectors; "
